@@ -343,6 +343,88 @@ fn deliver(u: &Universe, chan_ends: &HashMap<u64, (usize, usize)>, ops: &[Op], r
 	(g, r, bad)
 }
 
+/// A UtxoLookup that answers asynchronously: every query gets a future the case resolves later.
+struct AsyncUtxos(std::sync::Mutex<Vec<(u64, lightning::routing::utxo::UtxoFuture)>>);
+impl UtxoLookup for AsyncUtxos {
+	fn get_utxo(&self, _c: &ChainHash, scid: u64, n: Arc<Notifier>) -> UtxoResult {
+		let f = lightning::routing::utxo::UtxoFuture::new(n);
+		self.0.lock().unwrap().push((scid, f.clone()));
+		UtxoResult::Async(f)
+	}
+}
+
+/// G5: while the funding output of an announced channel is being looked up asynchronously, updates for both
+/// directions and node announcements of an end arrive in any order; once the lookup resolves the graph holds the
+/// channel with its capacity, and for every direction and node the message with the highest timestamp.
+fn async_lookup_case(u: &Universe, ends: &HashMap<u64, (usize, usize)>, rng: &mut Rng, rep: &mut Report, viol: &mut impl FnMut(&mut Report, &str, &str, String, &[Op])) {
+	use lightning::ln::msgs::{BaseMessageHandler, RoutingMessageHandler};
+	let scid = match u.caps.keys().min() {
+		Some(s) => *s,
+		None => return,
+	};
+	let cap = u.caps[&scid];
+	let (a, b) = ends[&scid];
+	let (lo, hi) = u.ordered(a, b);
+	let g = NetworkGraph::new(Network::Regtest, NullLogger);
+	let lookups = AsyncUtxos(std::sync::Mutex::new(vec![]));
+	let sync = lightning::routing::gossip::P2PGossipSync::new(&g, Some(&lookups), NullLogger);
+	let peer = u.npk(lo);
+	let _ = sync.handle_channel_announcement(Some(peer), &u.ca(scid, a, b, 0));
+	if lookups.0.lock().unwrap().is_empty() {
+		return;
+	}
+	let ts0 = u.now as u32 - 3 * 3600;
+	let mut ops: Vec<Op> = vec![Op::Ca { scid, a, b, lookup: true, flaw: 0 }];
+	let mut best_dir: [Option<u32>; 2] = [None, None];
+	let mut best_node: Option<u32> = None;
+	let mut msgs: Vec<Op> = vec![];
+	for dir in 0..2u8 {
+		for k in 0..(1 + rng.below(3)) {
+			let ts = ts0 + 10 * k as u32 + dir as u32;
+			msgs.push(Op::Cu { scid, dir, d: Dir { ts, enabled: true, cltv: 40, min: 1, max: (cap * 1000).min(1 + rng.below(cap * 1000)), base: rng.below(2000) as u32, prop: rng.below(10_000) as u32 }, flaw: 0, unsigned: false });
+		}
+	}
+	for k in 0..(1 + rng.below(3)) {
+		let mut alias = [0u8; 32];
+		alias[0] = k as u8 + 1;
+		msgs.push(Op::Na { n: lo, ts: ts0 + 100 + 7 * k as u32, rgb: [k as u8, 1, 2], alias, flaw: 0, unsigned: false });
+	}
+	rng.shuffle(&mut msgs);
+	for m in msgs.iter() {
+		match m {
+			Op::Cu { scid, dir, d, .. } => {
+				let _ = sync.handle_channel_update(Some(peer), &u.cu(*scid, a, b, *dir, d, 0));
+				best_dir[*dir as usize] = Some(best_dir[*dir as usize].unwrap_or(0).max(d.ts));
+			},
+			Op::Na { n, ts, rgb, alias, .. } => {
+				let _ = sync.handle_node_announcement(Some(peer), &u.na(*n, *ts, *rgb, *alias, 0));
+				best_node = Some(best_node.unwrap_or(0).max(*ts));
+			},
+			_ => {},
+		}
+		ops.push(m.clone());
+	}
+	let (b1, b2) = (PublicKey::from_secret_key(&u.secp, &u.bsk(lo, scid)), PublicKey::from_secret_key(&u.secp, &u.bsk(hi, scid)));
+	let txo = TxOut { value: Amount::from_sat(cap), script_pubkey: make_funding_redeemscript(&b1, &b2).to_p2wsh() };
+	for (_, f) in lookups.0.lock().unwrap().iter() {
+		f.resolve(Ok(txo.clone()));
+	}
+	let _ = sync.get_and_clear_pending_msg_events();
+	rep.count("g5_async_lookups_resolved");
+	let ro = g.read_only();
+	let (got_dirs, got_cap) = match ro.channels().get(&scid) {
+		Some(c) => ([c.one_to_two.as_ref().map(|x| x.last_update), c.two_to_one.as_ref().map(|x| x.last_update)], c.capacity_sats),
+		None => {
+			viol(rep, "G5-async-lookup", "a channel whose asynchronous funding lookup succeeded is missing from the graph", format!("scid {}", scid), &ops);
+			return;
+		},
+	};
+	let got_node = ro.nodes().get(&u.nid(lo)).and_then(|n| n.announcement_info.as_ref().map(|x| x.last_update()));
+	if got_cap != Some(cap) || got_dirs != best_dir || got_node != best_node {
+		viol(rep, "G5-async-lookup", "after an asynchronous funding lookup the graph does not hold the newest messages that arrived while it was pending", format!("scid {}: capacity {:?} (want {}), directions {:?} (want {:?}), node announcement {:?} (want {:?})", scid, got_cap, cap, got_dirs, best_dir, got_node, best_node), &ops);
+	}
+}
+
 fn main() {
 	vcore::install_quiet_panic_hook();
 	let args = Args::parse();
@@ -439,6 +521,7 @@ fn one_set(args: &Args, si: u64, rng: &mut Rng, rep: &mut Report, orders: u64) {
 		viol(rep, "G1-final-graph", "final graph differs from the reference graph", format!("library:\n{}\nreference:\n{}", pg, pr).chars().take(3000).collect(), &ops);
 	}
 	serial_check(&g, rep, &mut viol, &ops);
+	async_lookup_case(&u, &ends, rng, rep, &mut viol);
 	let mut h = Fnv::new();
 	h.u64(g.read_only().channels().len() as u64).u64(g.read_only().nodes().len() as u64).u64(ops.len() as u64 / 8).u64(r.removed_chans.len() as u64);
 	rep.distinct(h.get());
